@@ -9,13 +9,13 @@ from ..observe import SCRIPT_FN
 
 PROPERTY = 'C02'
 LEVEL = 'exploration'
-RULE = ('random pairs of finite terms (atoms, ints, Python strings, 5 pool variables, compound terms with '
+RULE = ('random pairs of finite terms (atoms, ints, Python strings and other Python constants incl. None, 5 pool variables, compound terms with '
         'name/arity clashes f/1 f/2 g/2, proper and partial lists, depth <= 3) unified with the real '
         'unify() under a stack of 0-4 earlier real unifications that are held open (suspended '
         'generators); checked: number of yields, both arguments snapshot to the same term at the yield, '
         'joint snapshot of (t1, t2, all pool variables) equals the reference MGU up to renaming, '
         'unify(t2,t1) on a fresh copy gives the same result, and the pre-state is back after the '
-        'generator is exhausted or closed. Thorough adds all pairs over a small universe. Plus an online '
+        'generator is exhausted or closed. Every 16th case is a long LIFO history of held unifications over up to 65 variables (chains of variable-to-variable links, pushes and pops, snapshot after every operation). Thorough adds all pairs over a small universe. Plus an online '
         'monitor wrapped around the engine-internal unify while generated programs run (every internal '
         'yield: both sides snapshot equal). Non-trivial = both terms compound, or variable-variable under '
         'prior bindings; distinct = hash of (stack, pair)')
@@ -23,7 +23,8 @@ ASSUMPTIONS = ['Robinson unifier with occurs check (ypv/refA.py unify) is the or
                'renaming so equality of canonical joint snapshots is most-generality + aliasing',
                'pairs (or prior unifications) that are subject to occurs check under some processing order '
                'are discarded (STO, unspecified by the property)',
-               'Python constants are ints and strs; bool/float mixing excluded']
+               'Python constants are ints, strs, None, non-integral floats, bytes and tuples; values that Python '
+               'itself equates across types (1 == True == 1.0) are not mixed']
 
 POOL = [V('X%d' % i) for i in range(5)]
 
@@ -36,8 +37,11 @@ def gterm(rng, d):
             return rng.choice(POOL)
         if r2 < 0.7:
             return A(rng.choice(['a', 'b', 'f', '[]', 'ab', 'A']))
-        if r2 < 0.85:
-            return I(rng.choice([0, 1, 2]))
+        if r2 < 0.83:
+            return I(rng.choice([0, 1, 2, -1, 10 ** 30]))
+        if r2 < 0.88:
+            # other Python constants: the falsy and the unusual ones (None, floats, bytes, tuples)
+            return ('py', rng.choice(['None', 'None', '2.5', '-0.5', "b'a'", '()', '(1, 2)']))
         return ('s', rng.choice(['a', 'b', '']))
     if r < 0.7:
         name, n = rng.choice([('f', 1), ('f', 2), ('g', 2), ('g', 2), ('h', 3), ('a', 1), ('fo', 2), ('foo', 2), ('ga', 2)])
@@ -326,8 +330,99 @@ def run_online(ctx, rng):
     return r
 
 
+def run_lifo(ctx, rng):
+    """a long LIFO history of held unifications over many variables: first a chain of variable-to-variable links
+    (up to 64 long, built head first, end first or in random order), then pushes (bind some variable of the chain)
+    and pops (close the newest unifications, possibly into the chain); after EVERY operation the joint snapshot of
+    all variables - read through get_value of a randomly chosen variable first, as a user would - must equal the
+    reference substitution at that depth of the stack."""
+    real = ctx['real']
+    E = real.E
+    yp = ctx['yp']
+    n = rng.choice([3, 6, 12, 16, 17, 18, 20, 25, 33, 40, 64])
+    W = [V('W%d' % i) for i in range(n + 1)]
+    vmap = {}
+    robs = [build_real(yp, w, vmap) for w in W]
+    links = [(W[i], W[i + 1]) if rng.random() < 0.7 else (W[i + 1], W[i]) for i in range(n)]
+    order = rng.choice(['head_first', 'end_first', 'random'])
+    if order == 'end_first':
+        links.reverse()
+    elif order == 'random':
+        rng.shuffle(links)
+    ops = [('push', a, b) for a, b in links]
+    vals = [A('a'), A('b'), I(0), I(7), ('s', 'a'), ('s', ''), ('py', 'None'), ('py', '2.5'), C('g', A('green')), C('f', rng.choice(W)), L([A('a')], rng.choice(W))]
+    for _ in range(rng.choice([6, 10, 16])):
+        r = rng.random()
+        if r < 0.5:
+            ops.append(('push', rng.choice([W[0], W[0], W[-1], rng.choice(W)]), rng.choice(vals)))
+        elif r < 0.6:
+            ops.append(('push', rng.choice(vals), rng.choice(W)))
+        elif r < 0.9:
+            ops.append(('pop', 1))
+        else:
+            ops.append(('pop', rng.choice([2, 3, n // 2, n])))
+    sstack = [{}]
+    held = []
+    c = {'lifo_histories': 1}
+    if n >= 17:
+        c['lifo_chains_of_17_or_more_links'] = 1
+    w = {'lifo': True, 'n': n, 'order': order, 'ops': ops}
+    viol = None
+    try:
+        for k, op in enumerate(ops):
+            if op[0] == 'push':
+                a, b = op[1], op[2]
+                s = sstack[-1]
+                if sto([(a, b)], s):
+                    continue
+                try:
+                    s2 = ref_unify(a, b, s)
+                except Cyclic:
+                    continue
+                g = iter(E.unify(build_real(yp, a, vmap), build_real(yp, b, vmap)))
+                try:
+                    next(g)
+                    ok = True
+                except StopIteration:
+                    ok = False
+                if ok != (s2 is not None):
+                    viol = {'kind': 'yields_but_not_unifiable' if ok else 'fails_but_unifiable', 'detail': {'op_index': k, 'op': op}}
+                    if ok:
+                        held.append(g)
+                    break
+                if ok:
+                    held.append(g)
+                    sstack.append(s2)
+            else:
+                for _ in range(min(op[1], len(held))):
+                    held.pop().close()
+                    sstack.pop()
+            c['lifo_ops'] = c.get('lifo_ops', 0) + 1
+            probe = rng.choice(robs)
+            probe.get_value()
+            got = snap_real(E, robs)
+            exp = canon(W, sstack[-1])
+            if got != exp:
+                viol = {'kind': 'bindings_wrong_after_operation', 'detail': {'op_index': k, 'op': op, 'expected': exp, 'got': got}}
+                break
+    finally:
+        while held:
+            held.pop().close()
+    if viol is None:
+        got = snap_real(E, robs)
+        if got != canon(W, {}):
+            viol = {'kind': 'prestate_not_restored', 'detail': {'expected': canon(W, {}), 'got': got}}
+    r = {'c': c, 'key': ('lifo', n, order, tuple(ops)), 'nt': True}
+    if viol:
+        viol['witness'] = w
+        r['v'] = viol
+    return r
+
+
 def run_case(ctx, seed, idx, tier):
     rng = random.Random((seed * 1000003 + idx) * 7 + 2)
+    if idx >= ctx['exh'] and idx % 16 == 1:
+        return run_lifo(ctx, rng)
     if idx < ctx['exh']:
         u = universe()
         t1, t2 = u[idx // len(u)], u[idx % len(u)]
